@@ -49,7 +49,7 @@ class Conv:
         return S(key)
 
     def go(self, t):
-        if not isinstance(t, tuple):
+        if not isinstance(t, tuple) or not t:
             return S(str(t))
         k = t[0]
         g = self.go
@@ -133,7 +133,7 @@ def _walk(t):
     stack = [t]
     while stack:
         x = stack.pop()
-        if not isinstance(x, tuple) or x in seen:
+        if not isinstance(x, tuple) or not x or x in seen or x[0] in ('lv', 'ref'):
             continue
         seen.add(x)
         yield x
@@ -192,7 +192,7 @@ def resolve_ite(t, assign):
     cache = {}
 
     def go(x):
-        if not isinstance(x, tuple):
+        if not isinstance(x, tuple) or not x or not isinstance(x[0], str) or x[0] in ('lv', 'ref'):
             return x
         r = cache.get(x)
         if r is not None:
@@ -224,6 +224,32 @@ def is_zero(e):
         return d == 0
     except Exception:
         return False
+
+
+def alpha(t, depth=0):
+    """Canonical names for bound variables (sum / prod / vmap / vcomp / count binders)."""
+    if not isinstance(t, tuple) or not t or not isinstance(t[0], str):
+        return t
+    k = t[0]
+    if k in ('num', 'sym', 'bool', 'str', 'chr', 'enum', 'lv', 'ref'):
+        return t
+    if k in ('sum', 'prod') and len(t) == 5:
+        b = ('sym', '_b%d' % depth)
+        return (k, b, alpha(t[2], depth), alpha(t[3], depth),
+                alpha(T.subst(t[4], {t[1]: b}), depth + 1))
+    if k == 'vmap' and len(t) == 6:
+        b = ('sym', '_b%d' % depth)
+        return (k, alpha(t[1], depth), b, alpha(t[3], depth), alpha(t[4], depth),
+                alpha(T.subst(t[5], {t[2]: b}), depth + 1))
+    if k == 'vcomp' and len(t) == 7:
+        b = ('sym', '_b%d' % depth)
+        return (k, alpha(t[1], depth), b, alpha(t[3], depth), alpha(t[4], depth),
+                alpha(T.subst(t[5], {t[2]: b}), depth + 1),
+                alpha(T.subst(t[6], {t[2]: b}), depth + 1))
+    if k == 'obj':
+        return ('obj', t[1], alpha(t[2], depth) if t[2] is not None else None,
+                tuple((n, alpha(v, depth)) for n, v in t[3]))
+    return (k,) + tuple(alpha(c, depth) if isinstance(c, tuple) else c for c in t[1:])
 
 
 _diff_cache = {}
@@ -284,7 +310,7 @@ def _assign_sign(t, d, sgn):
     cache = {}
 
     def go(x):
-        if not isinstance(x, tuple):
+        if not isinstance(x, tuple) or not x or not isinstance(x[0], str) or x[0] in ('lv', 'ref'):
             return x
         r = cache.get(x)
         if r is not None:
@@ -328,7 +354,7 @@ def equal(a, b, max_depth=10):
     """(True, None) if a == b over the reals in every case of the (innermost-first) case split
     on the condition atoms; comparisons are split by the sign of their difference (trichotomy),
     other atoms by truth value.  Else (False, witness)."""
-    return _eq(a, b, [], max_depth)
+    return _eq(alpha(a), alpha(b), [], max_depth)
 
 
 def _eq(a, b, case, depth):
@@ -397,7 +423,7 @@ def equalities(assign):
 def minmax_to_ite(t):
     """std::min / std::max / fmin / fmax over the reals as ite (used for integer formulas)."""
     def go(x):
-        if not isinstance(x, tuple):
+        if not isinstance(x, tuple) or not x or not isinstance(x[0], str) or x[0] in ('lv', 'ref'):
             return x
         if x[0] in ('num', 'sym', 'bool', 'str', 'chr', 'enum'):
             return x
